@@ -94,3 +94,75 @@ From V Require Import Model.C02_CheckSet.
 Lemma np_trusts_is_trusts (pol : peer -> tpolicy) (x : npeer) (p : N) :
   pol (np_id x) = mk_tp (np_all x) (np_list x) -> np_trusts x p = trusts pol (np_id x) p.
 Proof. intros E. unfold np_trusts, trusts. rewrite E. reflexivity. Qed.
+
+(* ---- forwarding: an update reaches only peers that trust its signer ---- *)
+Lemma trusts_self pol p : trusts pol p p = true.
+Proof. unfold trusts. rewrite N.eqb_refl, orb_true_r. reflexivity. Qed.
+
+Lemma spread_trust pol links s have : (forall p, In p have -> trusts pol p s = true) ->
+  forall p, In p (spread pol links s have) -> trusts pol p s = true.
+Proof.
+  intros H p Hp. unfold spread in Hp. apply in_app_or in Hp. destruct Hp as [Hp|Hp]; [auto|].
+  apply filter_In in Hp. destruct Hp as [_ Hp]. apply andb_true_iff in Hp. apply Hp.
+Qed.
+
+Lemma spread_n_trust n pol links s : forall have, (forall p, In p have -> trusts pol p s = true) ->
+  forall p, In p (spread_n n pol links s have) -> trusts pol p s = true.
+Proof. induction n as [|n IH]; intros have H p Hp; simpl in Hp; [auto|]. eapply IH; [|exact Hp]. now apply spread_trust. Qed.
+
+Lemma memN_In x l : memN x l = true -> In x l.
+Proof. unfold memN. intros H. apply existsb_exists in H. destruct H as (y & Hy & E). apply N.eqb_eq in E. now subst. Qed.
+
+Lemma deliverable_needs_trust n pol links s x : deliverable n pol links s x = true -> trusts pol x s = true.
+Proof.
+  unfold deliverable, holders. intros H. apply memN_In in H. eapply spread_n_trust; [|exact H].
+  intros p [<-|[]]. apply trusts_self.
+Qed.
+
+Lemma filter_keep_all {A} (f : A -> bool) l : (forall x, In x l -> f x = true) -> filter f l = l.
+Proof. induction l as [|x l IH]; simpl; auto. intros H. rewrite (H x) by now left. f_equal. apply IH. intros; apply H; now right. Qed.
+
+(* everything that can arrive at x is merged by x: its validator accepts what the relays accepted *)
+Lemma merged_of_deliverable n pol links x (arr : list arrival) :
+  (forall a, In a arr -> deliverable n pol links (sd_signer (snd a)) x = true) ->
+  merged pol x arr = map (fun a => sd_delta (snd a)) arr.
+Proof.
+  intros H. unfold merged. f_equal. apply filter_keep_all. intros a Ha. unfold validator.
+  eapply deliverable_needs_trust. now apply H.
+Qed.
+
+(* two peers that the same published updates can reach hold the same members, whatever the order and the path *)
+Lemma reachable_peers_converge n pol links (pub : list sdelta) x y (ax ay : list arrival) k :
+  Forall wf_delta (map sd_delta pub) ->
+  (forall d, In d pub -> deliverable n pol links (sd_signer d) x = deliverable n pol links (sd_signer d) y) ->
+  Permutation (map snd ax) (filter (fun d => deliverable n pol links (sd_signer d) x) pub) ->
+  Permutation (map snd ay) (filter (fun d => deliverable n pol links (sd_signer d) y) pub) ->
+  present (pinset_of pol x ax) k = present (pinset_of pol y ay) k.
+Proof.
+  intros W H Px Py. unfold pinset_of.
+  assert (Ix : forall a, In a ax -> deliverable n pol links (sd_signer (snd a)) x = true).
+  { intros a Ha. assert (Hin : In (snd a) (map snd ax)) by now apply in_map.
+    eapply Permutation_in in Hin; [|exact Px]. apply filter_In in Hin. apply Hin. }
+  assert (Iy : forall a, In a ay -> deliverable n pol links (sd_signer (snd a)) y = true).
+  { intros a Ha. assert (Hin : In (snd a) (map snd ay)) by now apply in_map.
+    eapply Permutation_in in Hin; [|exact Py]. apply filter_In in Hin. apply Hin. }
+  rewrite (merged_of_deliverable n pol links x ax Ix), (merged_of_deliverable n pol links y ay Iy).
+  assert (E : forall l : list arrival, map (fun a => sd_delta (snd a)) l = map sd_delta (map snd l)) by (intros l; now rewrite map_map).
+  rewrite !E.
+  assert (F : filter (fun d => deliverable n pol links (sd_signer d) x) pub = filter (fun d => deliverable n pol links (sd_signer d) y) pub)
+    by (apply filter_ext_in; exact H).
+  assert (P : Permutation (map sd_delta (map snd ax)) (map sd_delta (map snd ay))).
+  { apply Permutation_map. eapply Permutation_trans; [exact Px|]. rewrite F. now apply Permutation_sym. }
+  apply membership_converges; [|exact P].
+  eapply Forall_perm; [apply Permutation_map, Permutation_sym, Px|].
+  rewrite Forall_forall in *. intros d Hd. apply in_map_iff in Hd. destruct Hd as (sd & <- & Hs).
+  apply filter_In in Hs. apply W. apply in_map. apply Hs.
+Qed.
+
+(* the line A(1)--B(2)--C(3) when the relay B lists only A: what C signs stops at B, what A signs reaches C *)
+Definition line_pol_b (p : peer) : tpolicy :=
+  if p =? 1 then mk_tp false [3] else if p =? 3 then mk_tp false [1] else mk_tp false [1].
+Lemma relay_must_trust_signer :
+  trusts line_pol_b 1 3 = true /\ deliverable 3 line_pol_b [(1, 2); (2, 3)] 3 1 = false /\
+  deliverable 3 line_pol_b [(1, 2); (2, 3)] 1 3 = true /\ deliverable 3 line_pol [(1, 2); (2, 3)] 3 1 = true.
+Proof. vm_compute. repeat split; reflexivity. Qed.
